@@ -116,7 +116,7 @@ def pcapng_bytes(data, ethernet=None):
     draw = bool(nxt(2))
     ethernet = draw if ethernet is None else ethernet
     f = io.BytesIO()
-    w = dpkt.pcapng.Writer(f, linktype=dpkt.pcap.DLT_EN10MB if ethernet else (228, dpkt.pcap.DLT_RAW)[nxt(2)])
+    w = dpkt.pcapng.Writer(f, linktype=dpkt.pcap.DLT_EN10MB if ethernet else (228, 101, dpkt.pcap.DLT_RAW)[nxt(3)])
     macs = (bytes(6), bytes(6)) if nxt(2) else (bytes(nxt(256) for _ in range(6)), bytes(nxt(256) for _ in range(6)))
     ts = 1.0
     for k, m in enumerate(msgs):
